@@ -1986,7 +1986,13 @@ impl<const MIN_ALIGN: usize> Bump<MIN_ALIGN> {
             debug_assert!(!aligned_ptr.is_null());
             let aligned_ptr = NonNull::new_unchecked(aligned_ptr);
 
-            footer.ptr.set(aligned_ptr);
+            // The canonical empty chunk is a `static` shared by every arena on
+            // every thread and must never be written to. It has no capacity,
+            // so only zero-sized requests get here with it and the bump
+            // pointer would not move anyway.
+            if !footer.is_empty() {
+                footer.ptr.set(aligned_ptr);
+            }
             Some(aligned_ptr)
         }
     }
@@ -2232,7 +2238,11 @@ impl<const MIN_ALIGN: usize> Bump<MIN_ALIGN> {
     unsafe fn is_last_allocation(&self, ptr: NonNull<u8>) -> bool {
         let footer = self.current_chunk_footer.get();
         let footer = footer.as_ref();
-        footer.ptr.get() == ptr
+        // Nothing is ever allocated *in* the canonical empty chunk (zero-sized
+        // allocations merely borrow its address), and callers use a positive
+        // answer to move the bump pointer: never let them write to the shared
+        // `static`.
+        !footer.is_empty() && footer.ptr.get() == ptr
     }
 
     #[inline]
